@@ -519,8 +519,8 @@ def maxBitsPerLine (c : PPCfg) (ow : Nat) : Except Err Nat :=
     let b2 := if gc2 ≠ 0 then 1 else 0
     let total := gc1 + gc2 + c.sep.length + c.sep.length * b2
     let wex := c.width - ow - gc1 - gc2 - formatSep.length * b2
-    if total = 0 then .error (.internal "ZeroDivisionError") else
-    let groupsPerLine := 1 + wex / total
+    -- `1 + (wex // total if total else 0)` (a zero `total` needs a type without a printed width: not bin/oct/hex)
+    let groupsPerLine := 1 + (if total = 0 then 0 else wex / total)
     .ok (groupsPerLine * c.bpg)
   else
     let wa := max (c.width - ow - formatSep.length * (if c.f2.isSome then 1 else 0)) 1
